@@ -167,7 +167,34 @@ def gen_default(rng):
     return rng.choice([("none",), ("int", 0), ("int", 5), ("str", "dflt"), ("bool", True), ("float", 1.5), ("emptylist",)])
 
 
-def gen_universe(rng, ncls=None):
+def default_for(rng, t):
+    """a default value descriptor that conforms to the type, or None when the grammar of defaults has none"""
+    k = t[0]
+    if k == "none":
+        return ("none",)
+    if k == "int":
+        return ("int", rng.choice([0, 5]))
+    if k == "float":
+        return ("float", 1.5)
+    if k == "str":
+        return ("str", rng.choice(["dflt", ""]))
+    if k == "bool":
+        return ("bool", True)
+    if k == "any":
+        return rng.choice([("none",), ("int", 0), ("str", "dflt")])
+    if k == "coll" and t[1] == "list":
+        return ("emptylist",)
+    if k == "con":
+        return None
+    if k == "union":
+        for a in t[1]:
+            d = default_for(rng, a)
+            if d is not None and a[0] != "con":
+                return d
+    return None
+
+
+def gen_universe(rng, ncls=None, typed_defaults=False):
     u = {"classes": [], "enums": []}
     for _ in range(rng.choice([0, 1, 1, 2])):
         u["enums"].append(rng.choice([[1, 2], ["a", "b"], [1, "x"], [0, 1, 2], ["a"], [True, 2]]))
@@ -191,6 +218,12 @@ def gen_universe(rng, ncls=None):
             t = guard_recursion(t)
             f = {"name": nm, "alias": nm, "ty": t, "required": required, "default": gen_default(rng),
                  "fallback": False, "con": None}
+            if typed_defaults and not required:
+                d = default_for(rng, t)
+                if d is None or (d == ("emptylist",) and kind == "namedtuple"):
+                    f["required"] = True
+                else:
+                    f["default"] = d
             if kind == "namedtuple" and not required and f["default"][0] == "emptylist":
                 f["default"] = ("none",)
             if rng.random() < 0.3 and not simple:
